@@ -14,7 +14,7 @@ GEN = ["write_tables", "literals"]
 TRUSTED = TRUSTED_BASE + [
     "the digit generators (Dragonbox / Grisu) are not part of C14: theorems quantify over every digit list; the correspondence "
     "feeds the implementation's own default-option digits to the formatting model (judge op jfmt), so it also covers compact builds",
-    "binary.rs / hex.rs writers under options are NOT modelled: relational laws on their outputs only (exact rationals in Python); radix.rs IS modelled byte-exactly (Model/WriteRadix.lean, C07) — Props/C14Radix.lean: decided root causes of its open option findings, literal / digit-count / notation laws of the repaired model (switches default to the current code); its value law is judged on the outputs",
+    "non-decimal writers: binary.rs / hex.rs under digit options are modelled byte-exactly by Model/WriteBinaryOpts.lean (model column of `wf` ops on power-of-two radices) and radix.rs by Model/WriteRadix.lean (C07); both follow the repairs committed in /repo (2b7d47c digit-boundary rounding; b4fa7d0, fb86b3a, a288c48 positional window / min padding / tie parity). Their VALUE law (text value = default digits rounded) is proved for the power-of-two model (Props/C14Pow2 fixed_value) and judged on the outputs with exact rationals for radix.rs (the numeric value of a generic-radix text is not formalised: C14_radix_value_law stays a Prop)",
 ]
 RULE = ("G-bits sample + curated rounding-sensitive values (ties, all-nines carries, carries across an exponent break, values whose "
         "truncation ends in 0) x G-opt (max/min significant digits 1..64 and 100..500, exponent breaks over the whole range, Round/Truncate, "
@@ -29,10 +29,14 @@ TECHNIQUE = ("Lean 4 theorems about the formatting model for all digit lists, ex
 LEVEL_TEXT = ("Proved in Lean (Props/C14.lean) for every digit list, exponent and option set: truncate_and_round_decimal equals numeric "
               "round-half-even / truncation of the digit list as a number, carries move the exponent by one, the notation is scientific iff "
               "required or outside the breaks and never when forbidden, trim removes exactly the '.0', configured punctuation bytes are the ones "
-              "written. The tie to the Rust code is the correspondence (byte-for-byte on every generated op, all feature sets). Power-of-two and "
-              "generic radix writers: relational laws only, with the known radix-16 carry defect reported.")
-LEVEL_NOTE = ("Trusted: Lean kernel; rustc; differential harness; generators. Not proved: Dragonbox/Grisu digit generation (C02), the non-decimal "
-              "writers under options.")
+              "written. trim_exact / trim_only_integral / digits_written_count (at most max(max, min, integer digits + 1) digits), regressions for the "
+              "three repaired decimal defects (trim after rounding, carry padding). Power-of-two writers (Props/C14Pow2.lean): root causes of the "
+              "repaired digit-option defects as decided witnesses about the old function (truncateAndRoundCur), fixed_value (value law of the repaired "
+              "rounding for every alignment), digit-count law kept as a Prop (fixed_digits_full). Generic radix (Props/C14Radix.lean): literal law, "
+              "min-digits law, notation law, well-formedness and no-panic for every option set on the repaired model; value law judged on outputs. "
+              "The tie to the Rust code is the correspondence (byte-for-byte on every generated op, all feature sets).")
+LEVEL_NOTE = ("Trusted: Lean kernel; rustc; differential harness; generators. Digit generation is C02 (proved). Not proved: the value law for generic-radix texts "
+              "and the digit-count law of the power-of-two writers (both judged exactly on every generated output).")
 
 BIGBUF = 4000          # C14 is not about buffer sizes (C09 is): always hand over a generous buffer
 
